@@ -788,6 +788,7 @@ class BeartypeConf(object):
               member.
             * ``warning_cls_on_decorator_exception`` is neither :data:`None`
               *nor* a **warning category** (i.e., :class:`Warning` subclass).
+            * Any parameter is unhashable.
         BeartypeConfShellVarException
             If either:
 
@@ -850,49 +851,27 @@ class BeartypeConf(object):
                 )
                 is_pep557_fields = is_check_pep557
 
-            # ..................{ CACHE                      }..................
+            # ..................{ NORMALIZE                  }..................
             # Validate and possibly override the "is_color" parameter by the
             # value of the ${BEARTYPE_IS_COLOR} environment variable (if set).
             is_color = get_is_color(is_color)
 
-            #!!!!!!!!!!!!!!!!!!!!!!!!!!!!!!!!!!!!!!!!!!!!!!!!!!!!!!!!!!!!!!!!!!!
-            # CAUTION: Synchronize this tuple with the similar
-            # "self._conf_kwargs" dictionary defined below.
-            #!!!!!!!!!!!!!!!!!!!!!!!!!!!!!!!!!!!!!!!!!!!!!!!!!!!!!!!!!!!!!!!!!!!
-            # Efficiently hashable tuple of these parameters in arbitrary order.
-            conf_args = (
-                claw_decor_place_func,
-                claw_decor_place_type,
-                claw_is_pep526,
-                claw_skip_package_names,
-                hint_overrides,
-                is_color,
-                is_debug,
-                is_pep484_tower,
-                is_pep557_fields,
-                is_random,
-                strategy,
-                violation_door_type,
-                violation_param_type,
-                violation_return_type,
-                violation_type,
-                violation_verbosity,
-                warning_cls_on_decorator_exception,
-            )
-
-            # If this method has already instantiated a configuration with these
-            # parameters, return that configuration for consistency and
-            # efficiency.
-            if conf_args in _beartype_conf_args_to_conf:
-                return _beartype_conf_args_to_conf[conf_args]
-            # Else, this method has *NOT* yet instantiated a configuration with
-            # these parameters. In this case, continue to do so and then cache
-            # that configuration.
-
             # Dictionary mapping from the names to values of *ALL* possible
-            # keyword parameters configuring this configuration, intentionally
-            # defined *AFTER* this method first attempts to efficiently reduce
-            # to a noop by returning a previously instantiated configuration.
+            # keyword parameters configuring this configuration.
+            #
+            # Note that this dictionary is intentionally defined, defaulted,
+            # validated, and sanified *BEFORE* this method attempts to reduce to
+            # a noop by returning a previously instantiated configuration. Why?
+            # Because the cache of previously instantiated configurations is
+            # keyed on the contents of this dictionary. Keying that cache on the
+            # passed parameters instead would be unsafe. Since Python tests
+            # dictionary keys by equality rather than identity, invalid
+            # parameters that merely compare equal to valid parameters (e.g.,
+            # the integer "1", which compares equal to the boolean "True") would
+            # be silently accepted rather than rejected whenever a configuration
+            # whose parameters compare equal had already been instantiated.
+            # Likewise, the "kwargs" property of a configuration would no longer
+            # suffice to recreate that configuration.
             conf_kwargs = dict(
                 claw_decor_place_func=claw_decor_place_func,
                 claw_decor_place_type=claw_decor_place_type,
@@ -918,12 +897,31 @@ class BeartypeConf(object):
             # defaults *BEFORE* validating these parameters.
             default_conf_kwargs(conf_kwargs)
 
-            # If one or more passed parameters are invalid, raise an exception.
+            # If one or more passed parameters are invalid (including
+            # unhashable), raise an exception.
             die_if_conf_kwargs_invalid(conf_kwargs)
-            # Else, all passed parameters are valid.
+            # Else, all passed parameters are valid and thus hashable.
 
             # Sanify all passed parameters *AFTER* validating these parameters.
             sanify_conf_kwargs(conf_kwargs)
+
+            # ..................{ CACHE                      }..................
+            # Efficiently hashable tuple of these defaulted, validated, and
+            # sanified parameters in the same order as this dictionary.
+            conf_args = tuple(conf_kwargs.values())
+
+            # Configuration previously instantiated with these parameters if any
+            # *OR* "None" otherwise.
+            conf_cached = _beartype_conf_args_to_conf.get(conf_args)
+
+            # If this method has already instantiated a configuration with these
+            # parameters, return that configuration for consistency and
+            # efficiency.
+            if conf_cached is not None:
+                return conf_cached
+            # Else, this method has *NOT* yet instantiated a configuration with
+            # these parameters. In this case, continue to do so and then cache
+            # that configuration.
 
             # ..................{ INSTANTIATE                }..................
             # Instantiate a new configuration of this type.
